@@ -13,6 +13,7 @@ survive, garbage collection stays inside the tree.
 -/
 import GoUtils.Proofs.Rm
 import GoUtils.Proofs.RmGone
+import GoUtils.Proofs.RmExcl
 import GoUtils.Generated.Rm
 import GoUtils.Generated.Excl
 import GoUtils.Verdict
@@ -136,5 +137,29 @@ def C04_verdict_exclusion_handed_down : Verdict (Generated.Rm.deepExclusion = tr
   first
   | exact .holds (by decide)
   | exact .fails (by decide)
+
+
+/-- "entries matched by an exclusion pattern survive", the part that DOES hold in the code as it is (patterns
+    applied to the entries of the directory handed to the call): for every tree, fuel and exclusion set, CleanDir
+    on a real directory leaves an excluded entry of that directory untouched with everything below it … -/
+theorem C04_excluded_first_level_survives_cleanDir (c : Cfg) (hc : c.linkFirst = true) (fuel : Nat) (t : Tree)
+    (p : Path) (r : Res) (t' : Tree) (hnl : ∀ tg, lookup t p ≠ some (.link tg))
+    (h : cleanDir c fuel t p = some (r, t')) (n : Name) (hn : c.excluded.contains n = true) :
+    ∀ x, under (p ++ [n]) x = true → lookup t' x = lookup t x :=
+  cleanDir_keeps_excluded_child c hc fuel t p r t' hnl h n hn
+
+/-- … and a removal of a real directory that has an excluded entry leaves that entry untouched with everything
+    below it AND keeps the directory itself (the ancestor survives), whatever it answers -/
+theorem C04_excluded_first_level_survives_remove (c : Cfg) (hc : c.linkFirst = true) (fuel : Nat) (t : Tree)
+    (p : Path) (r : Res) (t' : Tree) (hdir : lookup t p = some .dir) (hp : p ≠ [])
+    (h : remove c (fuel + 1) t p = some (r, t')) (n : Name) (hn : c.excluded.contains n = true) (nd : Node)
+    (hchild : lookup t (p ++ [n]) = some nd) :
+    (∀ x, under (p ++ [n]) x = true → lookup t' x = lookup t x) ∧ lookup t' p = some .dir :=
+  remove_keeps_excluded_child c hc fuel t p r t' hdir hp h n hn nd hchild
+
+/-- non-vacuity: a directory with an excluded entry holding a file, next to an entry that goes -/
+def exclTree : Tree := [([1], .dir), ([1, 5], .dir), ([1, 5, 6], .file 2), ([1, 7], .file 3)]
+example : (remove { linkFirst := true, excluded := [5] } 9 exclTree [1]).map (fun x => (lookup x.2 [1, 5, 6], lookup x.2 [1, 7], lookup x.2 [1]))
+    = some (some (.file 2), none, some .dir) := by decide
 
 end GoUtils.Props.C04
